@@ -30,7 +30,7 @@ var ruleGroups = map[string]func(*Ctx){
 	"X1": rulesTransport, "X2": rulesTransport, "X3": rulesTransport, "W1": rulesTransport,
 	"G9": rulesExtra3, "P5": rulesExtra3, "M4": rulesExtra3, "M5": rulesExtra3, "X4": rulesExtra3, "B6": rulesExtra3, "G8": rulesExtra3,
 	"X7": rulesExtra4, "L5": rulesExtra4, "R3": rulesExtra4, "R4": rulesExtra4, "J2": rulesExtra4, "R5": rulesExtra4, "I10": rulesExtra4, "L4": rulesExtra4, "M6": rulesExtra4, "I8": rulesExtra4, "I9": rulesExtra4, "T6": rulesExtra4, "L3": rulesExtra4, "E6": rulesExtra4, "X5": rulesExtra4, "X6": rulesExtra4,
-	"P6": rulesExtra5, "P7": rulesExtra5, "X8": rulesExtra5, "G10": rulesExtra5, "M7": rulesExtra5, "G13": rulesExtra5, "G12": rulesExtra5, "J3": rulesExtra5, "Q6": rulesExtra5, "J4": rulesExtra5, "I11": rulesExtra5, "G11": rulesExtra5, "R6": rulesExtra5,
+	"P6": rulesExtra5, "P7": rulesExtra5, "X8": rulesExtra5, "G10": rulesExtra5, "G14": rulesExtra5, "M7": rulesExtra5, "G13": rulesExtra5, "G12": rulesExtra5, "J3": rulesExtra5, "Q6": rulesExtra5, "J4": rulesExtra5, "I11": rulesExtra5, "G11": rulesExtra5, "R6": rulesExtra5,
 	"S1": rulesExtra2, "G7": rulesExtra2, "Q5": rulesExtra2, "T5": rulesExtra2, "I7": rulesExtra2,
 	"I6": rulesExtra, "T2": rulesExtra, "P4": rulesExtra, "B4": rulesExtra, "B5": rulesExtra, "T3": rulesExtra, "T4": rulesExtra,
 	"M1": rulesAddr, "M2": rulesAddr, "M3": rulesAddr, "D2": rulesAddr,
@@ -110,7 +110,7 @@ var propSpecs = map[string]*propSpec{
 	"C08": {ID: "C08", Rules: []ruleRef{only("I1", "eventlogstore", "basestore"), {Rule: "I5"}, only("I6", "eventlogstore", "basestore"), {Rule: "I7"}, only("I10", "eventlogstore", "basestore"), {Rule: "J4"}},
 		Explanation: "Event log listing is the log's total order (I1 for the event and base index); the slice the query reverses in place is freshly built by the installed index on every call (I5). The event-log store selects windows from the index listing only (I7); the event index interprets the whole order (I6).",
 		NotDecided:  "append-only/stability (dependency); exact windows (integer arithmetic over positions and amounts: a solver/symbolic problem, another technique family)."},
-	"C09": {ID: "C09", Rules: rr("B1", "B2", "B4", "B5", "B6"), Controls: []string{"B1"},
+	"C09": {ID: "C09", Rules: rr("B1", "B2", "B4", "B5", "B6", "T3"), Controls: []string{"B1"},
 		Explanation: "Every subscription to store-scoped event types on a bus that may be the instance-wide one either filters by the event's database address before any effect, or is made on a bus private to the store (B1); both receive paths route a heads message by the address it names before Sync (B2). Handler goroutines capture only per-iteration state (B4); each store gets the cache loaded for its own address on every path (B5); nothing written back into the caller's options chains per-store hooks (B6).",
 		NotDecided:  "interference through the shared IPFS node or the pubsub router."},
 	"C10": {ID: "C10", Rules: []ruleRef{{Rule: "L1"}, only("Q1", "rejected-join"), {Rule: "I4"}, {Rule: "T1"}, {Rule: "T2"}, {Rule: "T4"}, {Rule: "T6"}, {Rule: "L4"}, {Rule: "Q6"}, {Rule: "Q5"}, only("G7", "replicator")}, Controls: []string{"L1", "T1", "T6"},
@@ -137,8 +137,8 @@ var propSpecs = map[string]*propSpec{
 	"C17": {ID: "C17", Rules: []ruleRef{{Rule: "P3"}, only("I4", "Append"), {Rule: "I10"}}, Controls: []string{"P3"},
 		Explanation: "The value persisted as local head is produced (Append) and written (Put) inside one exclusive critical section that is not released in between (P3). Every acknowledged write has refreshed the view (I4 on the write path).",
 		NotDecided:  "distinctness of appended entries (the dependency's append lock)."},
-	"C18": {ID: "C18", Rules: cat(rr("G1", "G3", "G4", "G5", "G6", "G8", "G9", "G10", "G11", "G13", "B3", "B6", "L5"), []ruleRef{only("G7", "replicator")}), Controls: []string{"G11"},
-		Explanation: "Every goroutine's loops have an owner-tied exit and helper goroutines never block on a channel whose receiver may have left (G1); Close reaches cancel, Replicator.Stop, cache close, every emitter it created and the legacy subscribers, every bus subscription is closed, instance Close reaches its parts (G3); no call made under a lock re-acquires the same lock class (G4); Close starts with the closed test, Drop closes first and removes only the path derived from the database's own address (G5); condition variables are signalled with their lock held (G6); shared table entries are not bound to one caller's context (B3). Past its guard Close passes cancel, Replicator.Stop, cache Close and the legacy teardown on every path (G8); close hooks are not chained through the caller's options (B6). What Drop destroys is the directory and address the store's cache was loaded with (G10). A worker whose wait for a fetch slot failed — the request was cancelled, the store closed — releases no slot: a weighted semaphore panics when more is released than was acquired (G7, failing branch). A goroutine that belongs to one call of an operation and writes the replication status is waited for before the operation returns, so that nothing is still writing it after a Close that follows (G11). Close takes no lock that an operation holds across a fetch of log history (G13).",
+	"C18": {ID: "C18", Rules: cat(rr("G1", "G3", "G4", "G5", "G6", "G8", "G9", "G10", "G11", "G13", "G14", "B3", "B6", "L5"), []ruleRef{only("G7", "replicator")}), Controls: []string{"G11"},
+		Explanation: "Every goroutine's loops have an owner-tied exit and helper goroutines never block on a channel whose receiver may have left (G1); Close reaches cancel, Replicator.Stop, cache close, every emitter it created and the legacy subscribers, every bus subscription is closed, instance Close reaches its parts (G3); no call made under a lock re-acquires the same lock class (G4); Close starts with the closed test, Drop closes first and removes only the path derived from the database's own address (G5); condition variables are signalled with their lock held (G6); shared table entries are not bound to one caller's context (B3). Past its guard Close passes cancel, Replicator.Stop, cache Close and the legacy teardown on every path (G8); close hooks are not chained through the caller's options (B6). What Drop destroys is the directory and address the store's cache was loaded with (G10). A worker whose wait for a fetch slot failed — the request was cancelled, the store closed — releases no slot: a weighted semaphore panics when more is released than was acquired (G7, failing branch). A goroutine that belongs to one call of an operation and writes the replication status is waited for before the operation returns, so that nothing is still writing it after a Close that follows (G11). Close takes no lock that an operation holds across a fetch of log history (G13), and the replicator's workers run under the request context bound to the replicator's own, which Stop cancels (G14).",
 		NotDecided:  "prompt return of every post-close operation (depends on leveldb and the bus)."},
 	"C19": {ID: "C19", Rules: rr("R1", "R2", "R3", "R4", "R5", "R6"), Controls: []string{"R4"},
 		Explanation: "The status is written only by the recalculation helpers and reset only by Close (R1); the helpers are executed abstractly on every weak ordering of (arg, logLen, oldMax, progress, progress+1): neither value decreases and progress <= maximum is re-established (R2). Progress also ends at or above the log length on every order type.",
